@@ -9,6 +9,7 @@ import (
 	"os"
 	"os/exec"
 	"path/filepath"
+	"regexp"
 	"strings"
 	"sync"
 	"time"
@@ -40,18 +41,27 @@ var solvers = []solverSpec{
 // solver with other random seeds (quantifier instantiation is sensitive to the seed; a second seed
 // removes most of the instability of slow queries).
 var lateSolvers = []solverSpec{
-	{"z3-new/seed1", func(f string, t int) []string { return []string{"z3-new", fmt.Sprintf("-T:%d", t), "smt.random_seed=1", f} }},
-	{"z3-new/seed2", func(f string, t int) []string { return []string{"z3-new", fmt.Sprintf("-T:%d", t), "smt.random_seed=2", f} }},
+	{"z3-new/seed1", func(f string, t int) []string {
+		return []string{"z3-new", fmt.Sprintf("-T:%d", t), "smt.random_seed=1", f}
+	}},
+	{"z3-new/seed2", func(f string, t int) []string {
+		return []string{"z3-new", fmt.Sprintf("-T:%d", t), "smt.random_seed=2", f}
+	}},
 	{"z3/seed3", func(f string, t int) []string { return []string{"z3", fmt.Sprintf("-T:%d", t), "smt.random_seed=3", f} }},
 }
 
 // a third wave for queries still undecided after 15 s
 var lateSolvers2 = []solverSpec{
-	{"z3-new/seed4", func(f string, t int) []string { return []string{"z3-new", fmt.Sprintf("-T:%d", t), "smt.random_seed=4", f} }},
-	{"z3-new/seed5", func(f string, t int) []string { return []string{"z3-new", fmt.Sprintf("-T:%d", t), "smt.random_seed=5", "smt.arith.random_initial_value=true", f} }},
+	{"z3-new/seed4", func(f string, t int) []string {
+		return []string{"z3-new", fmt.Sprintf("-T:%d", t), "smt.random_seed=4", f}
+	}},
+	{"z3-new/seed5", func(f string, t int) []string {
+		return []string{"z3-new", fmt.Sprintf("-T:%d", t), "smt.random_seed=5", "smt.arith.random_initial_value=true", f}
+	}},
 }
 
-const lateAfter = 4 * time.Second
+const lateAfter = 2 * time.Second
+const lateAfter2 = 8 * time.Second
 
 func runSolver(ctx context.Context, s solverSpec, file string, timeoutS int) (string, string, int64) {
 	ctx, cancel := context.WithTimeout(ctx, time.Duration(timeoutS+2)*time.Second)
@@ -93,10 +103,74 @@ func (o *Obligation) query(withModel bool) string {
 	return o.queryPrefix(withModel, o.Prefix)
 }
 
+var guardSym = regexp.MustCompile(`\|(reach_\d+|e_\d+_\d+)\|`)
+var guardedAssert = regexp.MustCompile(`^\(assert \(=> \|(reach_\d+|e_\d+_\d+)\| `)
+var guardDef = regexp.MustCompile(`^\(define-fun \|(reach_\d+|e_\d+_\d+)\| \(\) Bool `)
+
+// guardIndex: per command, the block/edge guard it is conditioned on ("" = unconditional), and the
+// definitions of the guards (which other guards each one mentions).
+func (tr *FnCtx) guardIndex() {
+	tr.guardMu.Lock()
+	defer tr.guardMu.Unlock()
+	if len(tr.cmdGuard) == len(tr.cmds) && tr.guardDeps != nil {
+		return
+	}
+	tr.cmdGuard = make([]string, len(tr.cmds))
+	tr.guardDeps = map[string][]string{}
+	for i, c := range tr.cmds {
+		if m := guardedAssert.FindStringSubmatch(c); m != nil {
+			tr.cmdGuard[i] = m[1]
+		} else if m := guardDef.FindStringSubmatch(c); m != nil {
+			for _, d := range guardSym.FindAllStringSubmatch(c[len(m[0]):], -1) {
+				tr.guardDeps[m[1]] = append(tr.guardDeps[m[1]], d[1])
+			}
+		}
+	}
+}
+
+// relevant: the guards of the blocks and edges that lie on some path to the goal (cone of influence of the
+// guard symbols the goal mentions). Assumptions conditioned on any other block cannot matter on those paths
+// and are left out of the query; leaving out assumptions is always sound.
+func (o *Obligation) relevant() map[string]bool {
+	if os.Getenv("VERIF_NOPRUNE") != "" || o.Ctx == nil {
+		return nil
+	}
+	roots := guardSym.FindAllStringSubmatch(o.Goal, -1)
+	if len(roots) == 0 {
+		return nil
+	}
+	o.Ctx.guardIndex()
+	cone := map[string]bool{}
+	var work []string
+	for _, r := range roots {
+		if !cone[r[1]] {
+			cone[r[1]] = true
+			work = append(work, r[1])
+		}
+	}
+	for len(work) > 0 {
+		g := work[len(work)-1]
+		work = work[:len(work)-1]
+		for _, d := range o.Ctx.guardDeps[g] {
+			if !cone[d] {
+				cone[d] = true
+				work = append(work, d)
+			}
+		}
+	}
+	return cone
+}
+
 func (o *Obligation) queryPrefix(withModel bool, prefix int) string {
 	var sb strings.Builder
 	sb.WriteString(preamble)
-	for _, c := range o.Ctx.cmds[:prefix] {
+	cone := o.relevant()
+	for i, c := range o.Ctx.cmds[:prefix] {
+		if cone != nil {
+			if g := o.Ctx.cmdGuard[i]; g != "" && !cone[g] {
+				continue
+			}
+		}
 		sb.WriteString(c)
 		sb.WriteString("\n")
 	}
@@ -174,9 +248,9 @@ func Solve(o *Obligation, dir string, idx int, timeoutS int, thorough bool) *Sol
 				case <-ctx.Done():
 					ch <- r{"skipped", "", s.name}
 					return
-				case <-time.After(15 * time.Second):
+				case <-time.After(lateAfter2):
 				}
-				rem := timeoutS - 15
+				rem := timeoutS - int(lateAfter2/time.Second)
 				if rem < 5 {
 					rem = 5
 				}
